@@ -205,3 +205,16 @@ func Paths(v ref.V, prefix ref.Sel, out *[]Path, maxDepth int) {
 		}
 	}
 }
+
+// NormMapKeys sorts entries by key and drops duplicates.
+func NormMapKeys(m []ref.KV) []ref.KV {
+	sort.SliceStable(m, func(i, j int) bool { return m[i].K < m[j].K })
+	var out []ref.KV
+	for i, e := range m {
+		if i > 0 && m[i-1].K == e.K {
+			continue
+		}
+		out = append(out, e)
+	}
+	return out
+}
